@@ -303,4 +303,25 @@ Section RoundErr.
     apply Rmult_le_compat_r; [pose proof (Rabs_pos S); lra|].
     eapply Rle_trans; [apply (E_mono (n + 2) (n + 3)); lia | apply E_le_gamma; exact Hn].
   Qed.
+
+  (** * Exactly representable values: multiples of 2^e of magnitude at most 2^(e+prec) *)
+  Lemma format_mult e K :
+    (emin <= e)%Z -> Rabs (IZR K * bpow radix2 e) <= bpow radix2 (e + prec) -> format (IZR K * bpow radix2 e).
+  Proof.
+    intros He Hb.
+    assert (Pp : (0 <= prec)%Z) by (pose proof Hp; unfold Prec_gt_0 in *; lia).
+    assert (E2 : IZR (2 ^ prec) = bpow radix2 prec) by (apply (IZR_Zpower radix2); exact Pp).
+    assert (HK : (Z.abs K <= 2 ^ prec)%Z).
+    { apply le_IZR. rewrite abs_IZR, E2.
+      rewrite Rabs_mult, (Rabs_pos_eq (bpow radix2 e)) in Hb by apply bpow_ge_0.
+      rewrite bpow_plus in Hb. apply Rmult_le_reg_l with (bpow radix2 e); [apply bpow_gt_0|]. lra. }
+    destruct (Z_lt_le_dec (Z.abs K) (2 ^ prec)) as [Hlt|Hge].
+    - apply generic_format_FLT. apply FLT_spec with (f := Float radix2 K e); [reflexivity | exact Hlt | exact He].
+    - assert (HKe : Z.abs K = (2 ^ prec)%Z) by lia.
+      destruct (Z.abs_spec K) as [[_ EK]|[_ EK]]; rewrite EK in HKe.
+      + rewrite HKe, E2, <- bpow_plus. apply generic_format_FLT_bpow; [exact Hp | lia].
+      + replace K with (- (2 ^ prec))%Z by lia.
+        rewrite opp_IZR, E2, Ropp_mult_distr_l_reverse, <- bpow_plus.
+        apply generic_format_opp. apply generic_format_FLT_bpow; [exact Hp | lia].
+  Qed.
 End RoundErr.
